@@ -4,8 +4,15 @@ use crate::monitor::event::EventType;
 use crate::monitor::MonitorConfig;
 use crate::thread::recovery::{PanicMarker, RecoveryThread};
 
+#[cfg(humphrey_verif_shim)]
+use crate::thread::verif_shim::{channel, Builder, JoinHandle, Mutex, Receiver, Sender};
+#[cfg(humphrey_verif_shim)]
+use std::sync::Arc;
+#[cfg(not(humphrey_verif_shim))]
 use std::sync::mpsc::{channel, Receiver, Sender};
+#[cfg(not(humphrey_verif_shim))]
 use std::sync::{Arc, Mutex};
+#[cfg(not(humphrey_verif_shim))]
 use std::thread::{Builder, JoinHandle};
 use std::time::Instant;
 
